@@ -762,6 +762,7 @@ func (x *Exec) havocLoop(st *State, fr *Frame, h *loopHdr) {
 	}
 	// objects allocated by earlier iterations lie below everything allocated from now on
 	x.bumpAbove(st, IntT(0))
+	st.LoopWM = st.AllocBase
 	mods := x.loopMods(fr.Fn, h)
 	names := make([]string, 0, len(mods))
 	for n := range mods {
@@ -1494,6 +1495,15 @@ func (x *Exec) convert(st *State, v Val, from, to types.Type) Val {
 		return x.newBytes(st, v.T, to)
 	case isByteSlice(from) && tIsB && tb.Info()&types.IsString != 0:
 		return scalar(x.bytesContent(st, v.T), to)
+	}
+	// string <-> []rune (or any other slice): re-encoding, not an identity - the result is not modelled
+	_, fromSlice := fu.(*types.Slice)
+	_, toSlice := tu.(*types.Slice)
+	if (fIsB && fb.Info()&types.IsString != 0 && toSlice) || (fromSlice && tIsB && tb.Info()&types.IsString != 0) {
+		x.note(x.Outside, "conversion between string and "+typeName(to)+"/"+typeName(from)+" (UTF-8 re-encoding): result arbitrary")
+		nv := x.symValue(st, "reenc", to, false)
+		x.bumpForVal(st, nv)
+		return nv
 	}
 	v.GoT = to
 	return v
